@@ -1708,7 +1708,8 @@ def check_pool(r, rule):
     # ---- WHO
     allowed = {MOD + "_cal_levenshtein", MOD + "_cal_custom_dist"}
     r.rep.ob(rule + "-WHO", q, readers <= allowed, "the block is read only by the two workers", where, expected=str(sorted(allowed)), found=str(sorted(readers)), key="block readers")
-    writers = {fq for fq in nn.P.functions if fq.startswith(MOD) and any(e["name"] == "_cal_params" for e in nn.summary(fq).events_of("gstore"))}
+    from ..rules import baseline_owners
+    writers = {o for fq in nn.P.functions if fq.startswith(MOD) and any(e["name"] == "_cal_params" for e in nn.summary(fq).events_of("gstore")) for o in baseline_owners(r, fq)}
     r.rep.ob(rule + "-WHO", q, writers == {q}, "the block is written only by _to_triplets", where, expected=q, found=str(sorted(writers)), key="block writers")
     # ---- workers are pure
     for w in sorted(allowed):
@@ -1886,7 +1887,8 @@ def check_engines_stateless(r, rule, entries=("kdtree", "hash_based", "symdel", 
             todo.extend(c for c, _ in cands if c)
         todo.extend(E.refs.get(q, ()))
     allowed = {(MOD + "_to_triplets", MOD + "_cal_params")}
-    bad = [(q, root, e, w) for q, root, e, w in E.global_writes(seen) if (q, root[1]) not in allowed]
+    from ..rules import baseline_owners
+    bad = [(q, root, e, w) for q, root, e, w in E.global_writes(seen) if not all((o, root[1]) in allowed for o in baseline_owners(r, q))]
     if not bad:
         r.rep.ob(rule, roots[0] if roots else MOD, True, f"no function reachable from the entry points keeps state between calls ({len(seen)} functions)", "", key="no hidden state")
     for q, root, e, w in bad:
